@@ -58,6 +58,8 @@ type Exec struct {
 	unfolded map[string]bool
 	expandPreds bool
 	lazyDepth   int
+	lazyApps    int
+	predDefining map[string]bool
 	predApps int
 	hookNew  Value
 	havocStore bool
